@@ -882,6 +882,14 @@ pub fn oracle_c10(toks: &[&str]) -> String {
             s.push('\n');
             s.into_bytes()
         }
+        // a block of BTOR2 lines of every kind that uses one of the parser's scratch buffers (constants, symbols, the
+        // justice condition list): what a line put there must not outlive the line
+        "btor2m" => {
+            let mut s = String::from("1 sort bitvec 8\n2 input 1 name\n3 const 1 01010101\n4 constd 1 -5\n5 consth 1 ff sym\n6 justice 3 2 3 2\n7 bad 2 ;");
+            while s.len() + 1 < item_len { s.push('x'); }
+            s.push_str("\n8 justice 2 2 3\n");
+            s.into_bytes()
+        }
         // comment lines only (before any header): the look-ahead must not accumulate over consecutive comments
         "cnfc" => {
             let mut s = String::from("c ");
@@ -943,6 +951,7 @@ pub fn oracle_c10(toks: &[&str]) -> String {
         Ok(Err(e)) => return format!("FAIL generated input rejected: {e}"),
         Ok(Ok(())) => {}
     }
+    let lines = if parser == "btor2m" { lines * 8 } else { lines };
     if items != lines {
         return format!("FAIL {items} items for {lines} lines");
     }
